@@ -255,6 +255,40 @@ def r043(report, g, lm):
     rule.check(not spurious, 'spurious AUTOSEMI', 'non line-terminator '
                'tokens', 'AUTOSEMI produced / token replaced for %r'
                % (spurious[:5],))
+    # the decision does not depend on the parenthesis stack (a function
+    # body inside a call argument, inside a header, ...)
+    stacks = {
+        'inside an open `(`': lambda: [[None, [tok('LPAREN')]]],
+        'inside a statement header': lambda: [[None, []],
+                                              [tok('LPAREN'), []]],
+        'inside `(` within a header': lambda: [[None, []], [
+            tok('LPAREN'), [tok('LPAREN')]]],
+        'inside two open `(`': lambda: [[None, [tok('LPAREN'),
+                                               tok('LPAREN')]]],
+    }
+    for ptype in sorted(RESTRICTED_PREFIX) + ['ID', 'RPAREN', 'RBRACE']:
+        for ctx, mk in sorted(stacks.items()):
+            ev = Evaluator(lm.module, 'Lexer', methods, functions)
+            lexer = mk_lexer_obj(prev=None, cur=tok(ptype), stack=mk())
+            new = tok('LINE_TERMINATOR')
+            lexer.get_lexer_token = ('pyfunc', lambda new=new: new)
+            try:
+                ret, _ = ev.call(methods['_get_update_token'], [],
+                                 self_obj=lexer)
+            except Raised as e:
+                ret = 'raises %s' % e.text
+            auto = isinstance(ret, Obj) and ret.type == 'AUTOSEMI'
+            expected = ptype in RESTRICTED_PREFIX
+            rule.check(
+                auto == expected and (auto or ret is new),
+                'restricted %s %s' % (ptype, ctx),
+                '%s <LineTerminator> %s' % (ptype, ctx),
+                'a line terminator after %s %s %s an AUTOSEMI (%r); the '
+                'restricted productions of 7.9.1 do not depend on '
+                'enclosing parentheses (e.g. a function body that is a '
+                'call argument)' % (ptype, ctx, 'yields' if auto else
+                                    'does not yield', ret),
+                where='lexers/es5.py:Lexer._get_update_token')
     # the grammar must accept the inserted token right after the keyword
     by = {}
     for p in g.productions:
@@ -367,10 +401,20 @@ def r045(report, lm):
     return rule
 
 
-def run(report, index, tier):
+def rules(report, index):
+    """the ASI rules (also part of C03: where semicolons are supplied is
+    part of which texts the parser accepts and of the tree it builds)"""
     M = models(index)
     g, A, lm = M.grammar, M.actions, M.lexmodel
     pm = g.parser_module
+    r041(report, g, A)
+    r042(report, lm, pm)
+    r043(report, g, lm)
+    r044(report, lm)
+    r045(report, lm)
+
+
+def run(report, index, tier):
     report.explanation = (
         'ASI decided per cooperating piece: grammar twins (exhaustive over '
         'the productions), the decision table of Lexer.auto_semi and of the '
@@ -378,11 +422,7 @@ def run(report, index, tier):
         'functions over the complete token-type domain, a finite '
         'exploration of the token-tracking transition function for comment '
         'transparency, and the t_ignore character set.')
-    r041(report, g, A)
-    r042(report, lm, pm)
-    r043(report, g, lm)
-    r044(report, lm)
-    r045(report, lm)
+    rules(report, index)
     report.extra['exhaustive'] = True
     report.not_decided.append(
         'the second sentence of C04 (any subset of removable semicolons '
